@@ -574,6 +574,10 @@ func (m *Machine) Draw(t *rapid.T, g *GenOpts) Action {
 	case "regToken":
 		a.Lz = []uint64{101, 102}[uniform(t, 2, "lz")]
 		a.N = uniform(t, 1000, "tok")
+		if pct(t, 15, "known-token-name?") {
+			// the name of a token the oracle already prices: the new asset is bound to its feed
+			a.N = 1 + uniform(t, 3, "known-token")
+		}
 		if hostile || pct(t, 35, "interval?") {
 			a.Ident = 1 + uniform(t, 6, "interval") // explicit feeder interval in the oracle info, incl. "0" and intervals shorter than a round's window
 		}
